@@ -4,8 +4,9 @@
   members re-emitted with `AddFile`, directory rewritten).
 
   * `zip_rewrite_preserves_members_readable`: on the class of C17 (`Spec.Zip`-valid, no archive comment, ≥ 42 bytes,
-    below 2^63, signed descriptors, fixed-layout ZIP64 markers, inferable descriptor widths) with room in the
-    extra fields, the output is a valid archive whose view is the requested members followed by the input's
+    below 2^63, signed descriptors, fixed-layout ZIP64 markers, inferable descriptor widths), the output — whenever
+    there is one: with fix-F7g a kept ≥ 4 GiB entry whose extra block cannot take the ZIP64 field makes signing fail
+    cleanly instead — is a valid archive whose view is the requested members followed by the input's
     view of the kept members — below 4 GiB verbatim (`…_small`, the conclusion of
     `zip_rewrite_preserves_members_full`), in general up to the ZIP64 extra field a ≥ 4 GiB entry gets when moved.
   * `not_zip_rewrite_preserves_members_full`: WITHOUT the fixed-layout clause the full statement is false: a record
@@ -19,7 +20,9 @@ import Relic.Proofs.ZipRewriteFull
 namespace Relic.Props.C03
 open Relic Relic.Zip
 
-/-- the class of C17 (`Props.C17.relicReadable` spelled out on a parsed archive) plus room for the ZIP64 extra -/
+/-- the class of C17 (`Props.C17.relicReadable` spelled out on a parsed archive).  (No clause on the extra fields is needed
+    any more: with fix-F7g `insertSignature` fails — `jarRewrite = .err "extratoolong"`, nothing written — instead of
+    truncating the 16-bit extra length of a re-synthesised ZIP64 record; every SUCCESSFUL rewrite is covered.) -/
 structure Readable (z : Bytes) (a : SpecZip.Archive) : Prop where
   nocomment : a.ends.comment = []
   len42 : 42 ≤ z.length
@@ -27,7 +30,6 @@ structure Readable (z : Bytes) (a : SpecZip.Archive) : Prop where
   fixed : (a.members.all fun m => fixedNeed m.entry.need) = true
   signed : SpecZip.descSigned a = true
   widths : (a.members.all (widthOK a)) = true
-  extra : ∀ sm ∈ a.members, sm.entry.extra.length + 28 < 2 ^ 16
 
 /-- **zip_rewrite_preserves_members_readable.** -/
 theorem zip_rewrite_preserves_members_readable (z : Bytes) (a : SpecZip.Archive) (news : List NewMember) (mt md : Nat) (out : Bytes)
@@ -37,7 +39,7 @@ theorem zip_rewrite_preserves_members_readable (z : Bytes) (a : SpecZip.Archive)
       SpecZip.valid out ∧
       specView out = some (newViews mt md news 0 ++ keptViews z (setKeep jarKeep kms) (newEntries mt md news 0).2.length) := by
   obtain ⟨kms, a', hM, hsm, hp', hview, _, _, hck, _⟩ := jarRewrite_parses ha hr.nocomment hr.len42 hr.len63 hr.fixed hr.signed
-    hr.widths hr.extra mt md hmt hmd news hnews out h hbound
+    hr.widths mt md hmt hmd news hnews out h hbound
   exact ⟨kms, hM, hsm, hck, by unfold SpecZip.valid; rw [hp']; rfl, hview⟩
 
 /-- **zip_rewrite_preserves_members_small.** Below 4 GiB: the conclusion of `zip_rewrite_preserves_members_full`. -/
@@ -49,7 +51,7 @@ theorem zip_rewrite_preserves_members_small (z : Bytes) (a : SpecZip.Archive) (n
     (h : jarRewrite z news mt md = .ok out) :
     specView out = some (news.map newView ++ vin.filter (fun v => jarKeepName v.name)) := by
   obtain ⟨kms, a', hM, hsm, hp', hview, hfor, _, hck, hcd, _⟩ := jarRewrite_parses ha hr.nocomment hr.len42 hr.len63 hr.fixed hr.signed
-    hr.widths hr.extra mt md hmt hmd news hnews out h (by simp only [u32Max] at hout; omega)
+    hr.widths mt md hmt hmd news hnews out h (by simp only [u32Max] at hout; omega)
   -- the directory of the output starts below 4 GiB
   have hcdlt : a'.ends.cdOff < u32Max := by
     obtain ⟨hen, _, _, _, _⟩ := parse_some hp'
@@ -129,7 +131,7 @@ theorem not_zip_rewrite_preserves_members_full : ¬ zip_rewrite_preserves_member
 example : (match SpecZip.parse zJar with
     | some a => decide (a.ends.comment = []) && decide (42 ≤ zJar.length) &&
       (a.members.all fun m => fixedNeed m.entry.need) && SpecZip.descSigned a && a.members.all (widthOK a) &&
-      decide (∀ sm ∈ a.members, sm.entry.extra.length + 28 < 2 ^ 16)
+      true
     | none => false) = true := by decide
 example : ∀ n ∈ wNews, NewOK n := by
   intro n hn
